@@ -75,7 +75,7 @@ theorem migrate_sound {db : Db} {h o next : Nat} (hr : Retained db h o) (hg : Go
     Step' db (migrate db next st).1 o h ∧
     Good (migrate db next st).1 o (nextCheckpoint next (migrate db next st).2) ∧
     ((migrate db next st).2 = .done → Good (migrate db next st).1 o (h + 1)) ∧
-    (migrate db next st).2 ≠ .failed := by
+    ((migrate db next st).2 = .failed → ∃ e sel, st = .writeFail e sel) := by
   unfold migrate
   rw [hr.1]
   simp only []
@@ -122,6 +122,10 @@ theorem migrate_sound {db : Db} {h o next : Nat} (hr : Retained db h o) (hg : Go
       have hstep := applyPass_step db o (max next o) h hso
         (fun i => decide (i < min (emit.getD (h - max next o + 1)) (h - max next o + 1)) && sel.getD i false)
       exact ⟨hstep, hstep.good hg, by simp, by simp⟩
+    | writeFail emit sel =>
+      have hstep := applyPass_step db o (max next o) h hso
+        (fun i => decide (i < min (emit.getD (h - max next o + 1)) (h - max next o + 1)) && sel.getD i false)
+      exact ⟨hstep, hstep.good hg, by simp, fun _ => ⟨emit, sel, rfl⟩⟩
 
 theorem attempts_sound : ∀ (steps : List Step) {db : Db} {h o next : Nat}, Retained db h o → Good db o next →
     Step' db (attempts db next steps).1 o h ∧ Good (attempts db next steps).1 o (attempts db next steps).2 := by
